@@ -83,6 +83,7 @@ RVPlain ==
    Obj([a |-> Num(R_1)]), Obj([a |-> Num(R_3), b |-> Num(R_1)]), Obj([a |-> Arr(<<Num(R_1)>>)]),
    Arr(<<Obj([a |-> Num(R_1)])>>), Obj([ab |-> Str("a")]), EmptyObj, EmptyArr,
    \* integers beyond int64 (exact in uint64 and float64) and at its edge
+   Arr(<<Str("b"), Str("a"), Str("ab")>>), Arr(<<Num(R_3), Num(R_1), Num(R_256)>>),      \* (not in any sorted order)
    Num(R_2p63), Arr(<<Num(R_2p63), Num(R_2p63)>>), Arr(<<Num(R_i64max), Num(R_i64max)>>),
    Arr(<<Obj([a |-> Num(R_2p63)]), Obj([a |-> Num(R_2p63)])>>), Arr(<<Num(R_i64min), Num(R_i64min)>>)}
 RVReps(z) ==
